@@ -89,6 +89,7 @@ type World struct {
 
 	Grants      map[string]bool // "granterKey|granteeKey"
 	FeeGrants   map[string]bool
+	Ghosts      []Ghost
 	Proposals   []*Proposal
 	NextPropID  uint64
 	strCounter  int
